@@ -206,7 +206,29 @@ def gen_repeat(facts):
             'def romanTable : List (Nat × String) := [%s]' % ', '.join('(%d, %s)' % (v, lean_str(r)) for v, r in table)]
 
 
-GENERATORS = [('escape', gen_escape), ('names', gen_names), ('wrap', gen_wrap), ('repeat', gen_repeat)]
+def gen_sniff(facts):
+    """the BOM / encoded '<?xml' prefix table of utils.read_bytes, in the order the loop visits it; the behaviour of the
+    BOM branch (is the mark cut off before decoding?) is probed on a payload"""
+    from chameleon import template, utils
+    rows = [(list(bom), list(prefix), enc) for bom, prefix, enc in utils._xml_prefixes]
+    facts['xml_prefixes'] = rows
+    # probe: which bytes does the BOM branch hand to the decoder?  (a BE mark followed by '<')
+    doc = utils.read_bytes(b'\xfe\xff\x00<', 'utf-8')[0]
+    sliced = (doc == '<')
+    facts['bom_sliced'] = sliced
+    from chameleon.zpt import template as zt
+    facts['default_encoding'] = zt.PageTemplate.default_encoding
+    facts['default_content_type'] = zt.PageTemplate.default_content_type
+    return ['/-- `utils._xml_prefixes`: (BOM, encoded "<?xml", codec), in loop order -/',
+            'def xmlPrefixes : List (List Nat × List Nat × String) := [%s]' % ', '.join(
+                '([%s], [%s], %s)' % (', '.join(map(str, b)), ', '.join(map(str, x)), lean_str(e)) for b, x, e in rows),
+            '/-- observed: the BOM branch of read_bytes decodes the body without its mark -/',
+            'def bomSliced : Bool := %s' % ('true' if sliced else 'false'),
+            'def defaultEncoding : String := %s' % lean_str(facts['default_encoding']),
+            'def defaultContentType : String := %s' % lean_str(facts['default_content_type'])]
+
+
+GENERATORS = [('sniff', gen_sniff), ('escape', gen_escape), ('names', gen_names), ('wrap', gen_wrap), ('repeat', gen_repeat)]
 
 
 def gen_tables(facts):
